@@ -12,7 +12,8 @@ EXPLANATION = (
     "collocation matrix at the nodes at which the function is sampled; (R17.3) option forwarding: f_physical and geo reach "
     "inner_products / the L2 functional unchanged, physical data without a geometry is refused, the hierarchical route uses the "
     "same mass form and functional; (R17.4) Greville points are clamped into the domain (shared with C19); (R17.5) default nodes "
-    "are the Greville points of each axis.")
+    "are the Greville points of each axis; (R17.6) one volume measure: every site that turns Jacobians into quadrature weights "
+    "(inner_products, integrate, the compiled forms' volume weight) takes the absolute value of the determinant.")
 DOES_NOT_DECIDE = "that either map is a projection; conditioning of collocation matrices; CG convergence"
 TECHNIQUE = "custom AST rules: error-status def-use (dropped-error rule), index coupling in comprehensions, option forwarding"
 
